@@ -101,6 +101,21 @@ Definition ev_run (info : list vtr -> vtr) (n c : nat) (evs : list ev) : pstate 
 Definition evs_of (clears : bool) (segs : list (list vtr)) : list ev :=
   flat_map (fun seg => Reset clears :: map Step seg) segs.
 
+(* ---------- clear() of both buffers in the middle of a stream ----------
+   MultiStepReplayBuffer inherits ReplayBuffer.clear(): storage, cursor and size are reset, the
+   deque of raw transitions is NOT touched.  [op] extends [ev] with that operation. *)
+Inductive op := OStep (t : vtr) | OReset (clears : bool) | OClear.
+
+Definition op_step (info : list vtr -> vtr) (n : nat) (s : pstate) (o : op) : pstate :=
+  match o with
+  | OStep t => pair_step info n s t
+  | OReset b => ev_step info n s (Reset b)
+  | OClear => {| win := win s; nbuf := rb_clear (nbuf s); mem := rb_clear (mem s); ret := ret s |}
+  end.
+
+Definition op_run (info : list vtr -> vtr) (n c : nat) (ops : list op) : pstate :=
+  fold_left (op_step info n) ops (pinit c).
+
 (* sample_from_indices(idxs) = storage[idxs], and memory.sample(..., return_idx=True) rows: a gather *)
 Definition gather (st : list (option cell)) (idx : list nat) : list (option cell) :=
   map (fun i => nth i st None) idx.
